@@ -172,9 +172,23 @@ class CacheMonitor:
                 oneshot = rng.choice([1, 1, 2]) if q < 0.35 else None
                 immediate = oneshot == 1 and rng.random() < 0.4
                 f = mk(cbid, kind, oneshot)
+                holder = None
+                if oneshot is None and rng.random() < 0.4:
+                    # method style (the documented CallbackObject way): the callback is a bound method, and the code that
+                    # unregisters it names the method again - an equal, but not the same object
+                    class Holder:
+                        def updateItem(self, module, param, item, _c=cbid):
+                            calls.append((_c, 'item', module, param, (item.value, item.timestamp, item.readerror)))
+
+                        def updateEvent(self, module, param, value, timestamp, readerror, _c=cbid):
+                            calls.append((_c, 'event', module, param, (value, timestamp, readerror)))
+                    Holder.updateItem.arm = Holder.updateEvent.arm = lambda: None
+                    holder = Holder()
+                    f = getattr(holder, kind)
+                    r.count('method_style_callbacks')
                 if immediate:
                     f.arm()
-                regs.append([cbid, key, kind, f, at, True])
+                regs.append([cbid, key, kind, f, at, True, holder])
                 group.append((cbid, kind, f, immediate))
                 pattern.append(('reg', 'node' if key is None else 'module' if isinstance(key, str) else 'param', kind) +
                                (('oneshot', oneshot) if oneshot else ()) + (('immediate',) if immediate else ()) +
@@ -281,7 +295,7 @@ class CacheMonitor:
                 if regs and rng.random() < 0.4:
                     reg = rng.choice(regs)
                     if reg[5] is True:
-                        client.unregister_callback(reg[1], **{reg[2]: reg[3]})
+                        client.unregister_callback(reg[1], **{reg[2]: reg[3] if reg[6] is None else getattr(reg[6], reg[2])})
                         reg[5] = False
                         pattern.append(('unreg',))
                 elif not register(i):
